@@ -37,9 +37,9 @@ Definition dispatch_check (f : Z) (w : wire) : wire :=
 From DD Require Import Model.Cli.
 Definition dispatch_cli (f : Z) (w : wire) : wire :=
   match f, w with
-  | 45, WL [a; oi; b; c; d; e; hc; cr; ce; j; r; rc; g; h; i] =>
-      let o := run_cli (mk_inv (r_bool a) (r_bool oi) (r_bool b) (r_bool c) (r_bool d) (r_bool e) (r_bool hc) (r_bool cr) (r_bool ce)
-                               (r_bool j) (r_bool r) (r_bool rc) (r_bool g) (r_bool h)
+  | 45, WL [a; oo; oi; b; c; d; e; hc; cr; ce; j; lo; dec; r; rc; g; h; i] =>
+      let o := run_cli (mk_inv (r_bool a) (r_bool oo) (r_bool oi) (r_bool b) (r_bool c) (r_bool d) (r_bool e) (r_bool hc) (r_bool cr) (r_bool ce)
+                               (r_bool j) (r_bool lo) (r_bool dec) (r_bool r) (r_bool rc) (r_bool g) (r_bool h)
                                (if r_bool i then Some TypeError else None)) in
       WL [WN (exit_status o); w_nat (diagnostic_lines o)]
   | _, _ => w_err
